@@ -49,14 +49,14 @@ PROPS = {
                 "bytes with each integer reversed; plus messages of all types vs the model. distinct = (op, kind, outcome, length class).",
     },
     "C04": {
-        "theorems": ["FinProto.Obl.C04_frames_recognised", "FinProto.Obl.C04_repo", "FinProto.Obl.C04_shape", "FinProto.frame_len_exact", "FinProto.frame_shape", "FinProto.patch_mid", "FinProto.Obl.gen_types_eq_pinned"],
+        "theorems": ["FinProto.Obl.C04_frames_recognised", "FinProto.Obl.C04_repo", "FinProto.Obl.C04_shape", "FinProto.frame_len_exact", "FinProto.frame_shape", "FinProto.patch_mid"],
         "aspects": {**ENC_ALL},
         "rule": "the 4 self-measuring frames x every body type of their tables x {stale length/checksum, absent body, unregistered key} x "
                 "bodies of 30/120/300 elements (> 1 KiB: the buffer reallocates while the body is written) x buffer histories; the length on the "
                 "wire, the object's field and an independent count must agree; re-encode after a size-preserving change.",
     },
     "C05": {
-        "theorems": ["FinProto.Obl.C05_frames_recognised", "FinProto.Obl.C05_repo", "FinProto.Obl.C05_calc_bodies", "FinProto.Obl.C05_sse_alg", "FinProto.Obl.C05_szse_alg", "FinProto.Obl.C05_crc32_alg", "FinProto.frame_cks_exact", "FinProto.frame_shape", "FinProto.Obl.gen_types_eq_pinned"],
+        "theorems": ["FinProto.Obl.C05_frames_recognised", "FinProto.Obl.C05_repo", "FinProto.Obl.C05_calc_bodies", "FinProto.Obl.C05_sse_alg", "FinProto.Obl.C05_szse_alg", "FinProto.Obl.C05_crc32_alg", "FinProto.frame_cks_exact", "FinProto.frame_shape"],
         "aspects": {**ENC_ALL},
         "rule": "as C04 for the 3 checksummed frames; the trailer and the object's field must equal an independent byte sum / bitwise CRC-32 of "
                 "exactly this frame's bytes (corrected length included, earlier buffer content excluded), incl. frames > 1 KiB of heavy bytes.",
